@@ -30,8 +30,8 @@ def run(chk):
     it.join_rx = None
     it.from_elem_limit = min(255, nbuf - 2)
     it.from_elem_longer_reads_fail = nbuf - 2 < 255
-    decode_then_encode(chk, it, decode, encode, nbuf)
-    encode_then_decode(chk, it, decode, encode)
+    chk.guard(decode_then_encode, chk, it, decode, encode, nbuf)
+    chk.guard(encode_then_decode, chk, it, decode, encode)
     tv(chk)
 
 
